@@ -685,11 +685,14 @@ func filterRow(f *btpb.RowFilter, r *btpb.Row) (bool, error) {
 		}
 		return true, nil
 	case *btpb.RowFilter_Condition_:
-		match, err := filterRow(f.Condition.PredicateFilter, copyRow(r))
+		pr := copyRow(r)
+		match, err := filterRow(f.Condition.PredicateFilter, pr)
 		if err != nil {
 			return false, err
 		}
-		if match {
+		// The predicate holds iff it yields at least one cell (limit, offset and
+		// strip filters report a match even when they leave nothing).
+		if match && !isEmpty(pr) {
 			if f.Condition.TrueFilter == nil {
 				return false, nil
 			}
